@@ -73,6 +73,18 @@ OneSpelling == \A s, t \in MiniStrings : (MiniAccept(s) /\ MiniAccept(t) /\ Mini
 ASSUME ListOK
 ASSUME OneSpelling
 
+(* ------------------------------ long strings --------------------------- *)
+(* The generic hex-string grammar has no length bound (other_headers).  For one deviation the verdict has a closed form that      *)
+(* does not need the string itself; TLC confirms it against the explicit strings on every bounded length, and the harness uses   *)
+(* it for strings of 65 thousand characters and more, with the deviation also placed around the 65536-character mark.            *)
+LongLengths == {65534, 65536, 65537, 65538, 131072, 131074, 200001}
+LongPositions == Positions \cup {"at65536", "at65537", "at100"}
+LongDevs == {NoDev} \cup [op : Ops, pos : LongPositions, cls : Classes]
+LongHex(n, dev) == LET m == n + (IF dev.op = "ins" THEN 1 ELSE 0) IN
+                     m > 0 /\ m % 2 = 0 /\ (dev.op = "none" \/ (n = 0 /\ dev.op = "sub") \/ LowerHexChar(dev.cls))
+ClosedForm == \A n \in Lengths, dev \in Devs : LongHex(n, dev) = IsHexString(Apply(Base(n), dev))
+ASSUME ClosedForm
+
 (* ------------------------------ enumeration ---------------------------- *)
 VARIABLES kind, t, e, l, pc
 vars == <<kind, t, e, l, pc>>
@@ -84,12 +96,14 @@ Init == /\ pc = "new"
                   /\ t = [len |-> n, d1 |-> a, d2 |-> b])
            \/ (kind = "entry" /\ t = NoT /\ l = <<>> /\ \E c \in Containers, s \in SigVals, h \in HdrVals, f \in FpVals, x \in BOOLEAN :
                   e = [c |-> c, sig |-> s, hdr |-> h, fp |-> f, extra |-> x])
+           \/ (kind = "long" /\ e = NoE /\ l = <<>> /\ \E n \in LongLengths, a \in LongDevs : t = [len |-> n, d1 |-> a, d2 |-> NoDev])
            \/ (kind = "list" /\ t = NoT /\ e = NoE /\ \E n \in 0..3 : \E f \in [1..n -> Elems] : l = f)
 Emit == /\ pc = "new" /\ pc' = "done" /\ UNCHANGED <<kind, t, e, l>>
         /\ PrintT("@@" \o ToJson(
              IF kind = "string" THEN
                LET s == StringOf(t) IN [kind |-> kind, t |-> t, classes |-> s, hexstring |-> IsHexString(s), key |-> IsHexKey(s),
                                         sig |-> IsHexSig(s), fp |-> IsFingerprint(s)]
+             ELSE IF kind = "long" THEN [kind |-> kind, t |-> t, hexstring |-> LongHex(t.len, t.d1)]
              ELSE IF kind = "entry" THEN [kind |-> kind, e |-> e, raw |-> IsRawEntry(e), gpg |-> IsGpgEntry(e), any |-> IsAnyEntry(e)]
              ELSE [kind |-> kind, l |-> l, nodup |-> NoDupKeys(l)]))
 Next == Emit
